@@ -6,8 +6,12 @@
        encrypt <doc> as ISO 32000 says, with explicit randomness -> (encdoc <doc'>)
        opts: an EFF entry (crypt filter of embedded file streams); the encryption dictionary as a direct object;
        the entry Length 256 added to the dictionary (what producers write for V 5)
-   (case <doc> <ver> <isoenc> <implenc> (pws (right|wrong xPW) ...) (flags ...))
+   (case <doc> <ver> <isoenc> <implenc> (pws (right|wrong xPW) ...) (flags ...) [(raw xTEXT ...)])
        <isoenc>: <doc> encrypted by this specification, <implenc>: <doc> encrypted by lopdf.
+       Every password here (in <ver> and in pws) is the byte string AFTER password preparation (PDFDocEncoding for
+       revisions 2-4, SASLprep + UTF-8 for 5-6) -- what the standard's algorithms are defined on; preparation stays an
+       oracle: the harness prepares the Unicode texts (raw ...) with the crate's own preparation, gives them to lopdf,
+       and checks that the prepared bytes of the line are what it got.  The element (raw ...) is not read here.
        answer (res (dec r ...) (reenc b)):
          r = this specification opening <implenc> with each password:
              (ok <objects> <trailer, sorted by key> xFILEKEY) | (rejected) | (notstandard) | (damaged)
@@ -220,6 +224,15 @@ Arguments has_flag _ _%string_scope.
 Definition pw_of_sx (x : sx) : option bytes :=
   match x with SL [_; p] => as_bytes p | _ => None end.
 
+Definition run_case (dx vx lx : sx) (pws : list sx) (fl : sx) : sx :=
+  match doc_of_sx dx, request_of_sx vx, doc_of_sx lx, omap pw_of_sx pws with
+  | Some d, Some rq, Some impl, Some pws =>
+    SL [sx_id "res";
+        SL (sx_id "dec" :: map (fun pw => sx_opened (open_document I impl pw)) pws);
+        SL [sx_id "reenc"; if has_flag fl "noreenc" then sx_id "skipped" else reenc d rq impl]]
+  | _, _, _, _ => sx_id "badcase"
+  end.
+
 Definition run (x : sx) : sx :=
   match x with
   | SL [t; dx; vx; rx; ix] =>
@@ -236,16 +249,10 @@ Definition run (x : sx) : sx :=
       | _, _, _, _ => sx_id "badcase"
       end
     else sx_id "badcase"
-  | SL [t; dx; vx; _; lx; SL (_ :: pws); fl] =>
-    if is_id t "case" then
-      match doc_of_sx dx, request_of_sx vx, doc_of_sx lx, omap pw_of_sx pws with
-      | Some d, Some rq, Some impl, Some pws =>
-        SL [sx_id "res";
-            SL (sx_id "dec" :: map (fun pw => sx_opened (open_document I impl pw)) pws);
-            SL [sx_id "reenc"; if has_flag fl "noreenc" then sx_id "skipped" else reenc d rq impl]]
-      | _, _, _, _ => sx_id "badcase"
-      end
-    else sx_id "badcase"
+  | SL [t; dx; vx; _; lx; SL (_ :: pws); fl] => if is_id t "case" then run_case dx vx lx pws fl else sx_id "badcase"
+  (* a seventh element (raw xTEXT ...): the Unicode texts of the passwords, for the harness only -- this side works
+     on the prepared bytes *)
+  | SL [t; dx; vx; _; lx; SL (_ :: pws); fl; _] => if is_id t "case" then run_case dx vx lx pws fl else sx_id "badcase"
   | _ => sx_id "badcase"
   end.
 
